@@ -146,6 +146,31 @@ func runC13(rcx *RunCtx) {
 				rcx.Find("C13", "wrong-reply", "read", "%s answered by %s", req, rep)
 			}
 		}
+		// the same count against an extended attribute whose value is larger
+		// than a message: the xattr fid's Rread obeys the same limit (the
+		// wire monitor checks every Rread against the announced msize)
+		if !dir && big && len(rcx.Findings) == 0 && rv.Msize >= 256 && size <= 1<<20 {
+			n.SetXattrDirect("user.big", n.Data)
+			xw := c.Send(c.Tag(), &rc.Txattrwalk{Fid: 1, NewFid: 5, Name: "user.big"})
+			simrt.WaitQuiescent()
+			if xw.Reply != nil {
+				if _, ok := xw.Reply.Msg.(*rc.Rxattrwalk); ok {
+					xr := c.Send(c.Tag(), &rc.Tread{Fid: 5, Offset: offset, Count: count})
+					simrt.WaitQuiescent()
+					rcx.Count("xattr_reads_at_the_limit", 1)
+					if xr.Reply == nil {
+						rcx.Find("C13", "no-reply", "xattr-read", "%s on an xattr fid not answered", xr)
+					} else if m, ok := xr.Reply.Msg.(*rc.Rread); ok {
+						for i, b := range m.Data {
+							if b != byte((int(offset)+i)*7+1) {
+								rcx.Find("C13", "wrong-data", "xattr-Rread", "xattr Rread byte %d is %d, the value has %d", i, b, byte((int(offset)+i)*7+1))
+								break
+							}
+						}
+					}
+				}
+			}
+		}
 		w.Shutdown()
 		rcx.Findings = append(rcx.Findings, w.Findings...)
 	})
